@@ -79,3 +79,21 @@ Theorem C01_reassemble_replace_partial : forall st s cols,
   reassembles evs (source s) = true /\ st' = st.
 Proof. exact rshape_stream_reassembles. Qed.
 Print Assumptions C01_reassemble_replace_partial.
+
+(* ---- the property itself, for ALL source trees of the model: Raw*, Original, SourceMapSource
+   with any map (with or without inner map: the combined-map streamer rewrites attributions, never
+   texts), Concat, Replace, Cached - to any depth, for EVERY state of the caches (a cache entry may
+   hold any map whatsoever), both column settings.  tree_wf: texts are valid UTF-8 (Rust strings),
+   replacement bounds are ordered and lie on char boundaries or beyond the end. ---- *)
+From RS Require Proofs.ReassAll Proofs.ReassAllText.
+Theorem C01_all_trees : forall s, tree_wf s = true -> forall st cols,
+  reassembles (fst (fst (stream st s (mkOpts cols false)))) (source s) = true.
+Proof. exact ReassAll.all_stream_reassembles. Qed.
+Print Assumptions C01_all_trees.
+
+(* second sentence: every chunk delivered to a caller outside the crate carries its text -
+   no hypothesis at all *)
+Theorem C01_chunks_carry_text : forall s st cols t m,
+  In (EChunk t m) (fst (fst (stream st s (mkOpts cols false)))) -> exists x, t = Some x.
+Proof. exact ReassAllText.all_stream_chunks_carry_text. Qed.
+Print Assumptions C01_chunks_carry_text.
